@@ -62,4 +62,37 @@ def serve (tr : Transport) (rt : ReqType) (noResp : Option Nat) (code : Nat) : B
       | .con => (acc, [⟨"ack", 0, "req", false⟩])          -- sendJustAcknowledgeMessage: bare ACK, token cleared
       | .non => (acc, [])                                  -- unmodified: nothing is sent
 
+/-- What `processResponse` / `ProcessReceivedMessageWithHandler` put on the wire for a response message whose code the
+    handler set (`some code`) or that was left untouched (`none`). -/
+def wire (tr : Transport) (rt : ReqType) : Option Nat → List Sent
+  | some code =>
+    match tr with
+    | .tcp => [⟨"-", code, "-", true⟩]
+    | .udp =>
+      if code = 0 then
+        match rt with
+        | .con => [⟨"ack", 0, "req", true⟩]
+        | .non => [⟨"non", 0, "own", true⟩]
+      else
+        match rt with
+        | .con => [⟨"ack", code, "req", true⟩]
+        | .non => [⟨"con", code, "own", true⟩]
+  | none =>
+    match tr with
+    | .tcp => []
+    | .udp =>
+      match rt with
+      | .con => [⟨"ack", 0, "req", false⟩]
+      | .non => []
+
+/-- The response message after a handler's successive `SetResponse` calls: a refused call returns its error before it
+    touches the message, an accepted one overwrites code (and body); `none` = the message is still unmodified. -/
+def afterCalls (noResp : Option Nat) (cs : List Nat) : Option Nat :=
+  cs.foldl (fun s c => if setResponseAccepted noResp c then some c else s) none
+
+/-- Outcome of one request whose handler calls `SetResponse` with the codes `cs`, in that order: the result of every call
+    and what goes on the wire. -/
+def serveCalls (tr : Transport) (rt : ReqType) (noResp : Option Nat) (cs : List Nat) : List Bool × List Sent :=
+  (cs.map (setResponseAccepted noResp), wire tr rt (afterCalls noResp cs))
+
 end CoapVerif.Model.NoResponse
